@@ -65,7 +65,8 @@ def assign_registers(data: CodeData, code: list[IC10Instruction]):
         called_from[name].update(module_names)
 
     added_modules = set([""])
-    for module in module_names:
+    # sorted: the iteration order of a set of names differs from process to process
+    for module in sorted(module_names):
         called_from[module] = added_modules.copy()
         added_modules.add(module)
 
@@ -78,7 +79,7 @@ def assign_registers(data: CodeData, code: list[IC10Instruction]):
 
     sorted_scopes = []
     while len(sorted_scopes) < len(all_scopes):
-        for scope in all_scopes - set(sorted_scopes):
+        for scope in sorted(all_scopes - set(sorted_scopes)):
             if called_from.get(scope, set()).issubset(set(sorted_scopes)):
                 sorted_scopes.append(scope)
                 break
